@@ -106,19 +106,25 @@ PROPS = {
     },
     "C14": {
         "harness": [{"cmd": "c14", "n": {"quick": 1800, "thorough": 50000}}],
+        "extra_targets": ["Corr/C14Cert.vo"],
         "rule": "random 0-6 row x 0-9 column alignments generated column-wise (all-gap, all-N, exact two-way ties, "
                 "mixed case, '.', '*', protein letters) x CharStats / UniqueCharacters / CharStatsSeq / CharStatsSite / "
-                "MaxCharStats (20 repeated calls must agree) / Consensus / Entropy (domain, NaN) / NbVariableSites / "
+                "MaxCharStats (20 repeated calls must agree) / Consensus / Entropy (domain, NaN, 40 repeated calls "
+                "bit-identical, value certified against the real-valued definition; half of the cases on 8-31 row "
+                "columns) / NbVariableSites / "
                 "InformativeSites / AvgAllelesPerSite (float compared with the exact ratio within 1 ulp) / "
-                "CountDifferences / NumGapsUniquePerSequence / NumMutationsUniquePerSequence / "
-                "NumMutationsComparedToReferenceSequence, indices in [-1, L+1]; plus EqualOrCompatible on all 17x17 "
+                "CountDifferences / NumGapsUniquePerSequence / NumMutationsUniquePerSequence (both also with a count "
+                "profile) / NumMutationsComparedToReferenceSequence / ListMutationsComparedToReferenceSequence "
+                "(references with several gap runs) / Pssm (5 normalisations + invalid ones, log, dyadic pseudo "
+                "counts; error condition, no NaN, 20 repeated calls bit-identical, two entries per case certified "
+                "against the real-valued definition), indices in [-1, L+1]; plus EqualOrCompatible on all 17x17 "
                 "codes; non-trivial = >= 2 rows and >= 2 columns, or a compatibility probe; distinct = distinct "
                 "(op, arguments, input)",
         "nontrivial": lambda m: (len(m.get("seqs", [])) >= 2 and len(m["seqs"][0]) >= 2) or m.get("op") == "EqualOrCompatible",
         "assumptions": [
             "ASCII residues (130-entry tables in the code)",
-            "not modelled in this revision: Entropy's value, Pssm, ListMutationsComparedToReferenceSequence, count "
-            "profiles and the profile-relative outputs of NumGaps/NumMutationsUniquePerSequence",
+            "not modelled in this revision: the codon-wise (aa) variant of ListMutationsComparedToReferenceSequence; "
+            "Pssm entries and Entropy values are certified per sampled entry (interval tactic), not compared bit for bit",
             "spec oracle does not judge InformativeSites when a lower-case wildcard (n/x) is present, nor "
             "NumMutationsComparedToReferenceSequence on rows with lower-case n or non-IUPAC letters",
         ],
